@@ -243,6 +243,63 @@ def _eval_with_plane(expr, env, lets, plane, _ival, _bval):
     return _ival(expr, e2, lets) & 0xFF
 
 
+def _mip_size_rule(ctx, blp):
+    """level i of a w x h texture is max(w >> i, 1) x max(h >> i, 1): each side halves on its own and stops at 1 (an 8x2 texture has
+    levels 8x2, 4x1, 2x1, 1x1).  BlpHeader::mipmap_size is what every parser and decoder takes the level geometry from; it is evaluated
+    here for all small shapes"""
+    R = ctx.rule("C16.mip-level-size-halves-each-side-independently", "BlpHeader::mipmap_size(i) == (max(w >> i, 1), max(h >> i, 1)) for w, h in {1,2,3,4,8,16,64,100} and i in 0..=8 (576 evaluations)", floor=1)
+    from .c10 import _ival, _bval, _NoEval
+    f = next((x for x in blp.fn_list if x.hir and x.kind != "Closure" and norm(x.path).endswith("header::BlpHeader::mipmap_size")), None)
+    if f is None:
+        ctx.bad(R, "mipmap_size|missing", "-", "function not found", "anchor gone")
+        return
+    ctx.saw_fn(f)
+    pn = [b for p_ in f.hir["params"] for b in hirq.pat_binds(p_)]
+    ivar = next((p_ for p_ in pn if p_ != "self"), None)
+
+    def tup(n, env, lets):
+        n = hirq.strip(n)
+        if n.get("k") == "block":
+            lets = dict(lets)
+            for st in n.get("stmts") or []:
+                st = hirq.strip(st)
+                if st.get("k") == "let" and st["pat"].get("k") == "bind" and st.get("init") is not None:
+                    lets[st["pat"]["name"]] = st["init"]
+                elif st.get("k") == "if" and any(x.get("k") == "ret" for x in hirq.walk(st["then"])) and _bval(st["c"], env, lets):
+                    r_ = next(x for x in hirq.walk(st["then"]) if x.get("k") == "ret")
+                    return tup(r_["e"], env, lets)
+            if n.get("e") is None:
+                raise _NoEval("block without value")
+            return tup(n["e"], env, lets)
+        if n.get("k") == "if":
+            return tup(n["then"] if _bval(n["c"], env, lets) else n["else"], env, lets)
+        if n.get("k") == "ret":
+            return tup(n["e"], env, lets)
+        if n.get("k") == "tup" and len(n["es"]) == 2:
+            return tuple(_ival(e, env, lets) for e in n["es"])
+        if n.get("k") == "path" and (n.get("res") or {}).get("local") in lets:
+            return tup(lets[n["res"]["local"]], env, lets)
+        raise _NoEval("not a pair: " + hirq.render(n)[:40])
+    try:
+        bad, n_ev = None, 0
+        for w in (1, 2, 3, 4, 8, 16, 64, 100):
+            for h in (1, 2, 3, 4, 8, 16, 64, 100):
+                for i in range(0, 9):
+                    leaf = lambda r_, w=w, h=h: w if re.search(r"\.width$", r_) else (h if re.search(r"\.height$", r_) else None)
+                    got = tup(f.hir["body"], {ivar: i, "__leaf__": leaf, "__ty__": (lambda t_: blp.ty(t_))}, {})
+                    n_ev += 1
+                    want = (max(w >> i, 1), max(h >> i, 1))
+                    if got != want and bad is None:
+                        bad = (w, h, i, got, want)
+        if bad:
+            ctx.bad(R, "mipmap_size|level-geometry", f.where, "a %dx%d texture: level %d is given as %s, halving each side down to 1 gives %s" % bad,
+                    "parsers and decoders read the deep levels of elongated textures with the wrong geometry: the parsed texture differs from the encoded one although the file is right")
+        else:
+            ctx.ok(R, {"fn": "mipmap_size", "evaluations": n_ev})
+    except _NoEval as e:
+        ctx.bad(R, "mipmap_size|not-evaluable", f.where, "level size not evaluable: %s" % e, "shape changed")
+
+
 def _raw3_unpack_rule(ctx, blp):
     """the RAW3 decoder takes the four channels back out of the word the packer laid them in: for sample words, [r,g,b,a] read by
     raw3_to_image are the bytes the packer's layout puts there (bits 16..23, 8..15, 0..7, 24..31)"""
@@ -365,6 +422,7 @@ def run(ctx):
     _alpha_depth_rule(ctx, blp)
     _raw3_pack_rule(ctx, blp)
     _raw3_unpack_rule(ctx, blp)
+    _mip_size_rule(ctx, blp)
     _alpha_plane_rule(ctx, blp)
 
     enc = next((f for f in blp.fn_list if norm(f.path) == "wow_blp::encode::encode_header"), None)
